@@ -16,7 +16,7 @@ theorem step_eq_body_none (cfg : Cfg) (clock : Clock) (op : Op) (st : State) :
     | advance i a =>
       simp only [Op.readsOutside, hco, if_true]
       simp only [body, Op.target, nowOf, clkOnError, taskEffect]
-    | reset i s t c v =>
+    | reset i r =>
       simp only [Op.readsOutside, hco, if_true]
       simp only [body, Op.target, nowOf, clkOnError, taskEffect]
     | addTask => simp [Op.readsOutside]
@@ -24,6 +24,9 @@ theorem step_eq_body_none (cfg : Cfg) (clock : Clock) (op : Op) (st : State) :
     | stopTask => simp [Op.readsOutside]
     | update => simp [Op.readsOutside]
     | removeTask => simp [Op.readsOutside]
+    | refresh => simp [Op.readsOutside]
+    | start => simp [Op.readsOutside]
+    | stop => simp [Op.readsOutside]
 
 /-- one sequential operation gives the same result in both code variants -/
 theorem step_variant_irrelevant (cfg : Cfg) (b : Bool) (clock : Clock) (op : Op) (st : State) :
@@ -40,7 +43,10 @@ theorem body_clk_ge (cfg : Cfg) (clock : Clock) (op : Op) (st : State) :
     cases htg : op.target with
     | none =>
       cases op with
-      | addTask s tot c v => simp only [body]; split <;> simp
+      | addTask a => simp only [body]; split <;> omega
+      | refresh => simp [body]
+      | start => simp only [body]; split <;> simp
+      | stop => simp only [body]; split <;> simp
       | removeTask i => exact absurd rfl (hr i)
       | startTask i => simp [Op.target] at htg
       | stopTask i => simp [Op.target] at htg
@@ -53,14 +59,14 @@ theorem body_clk_ge (cfg : Cfg) (clock : Clock) (op : Op) (st : State) :
       | none =>
         simp only [clkOnError]
         cases op <;> simp [nowOf]
-      | some x => exact taskEffect_clk_ge _ _ _ _ _ _
+      | some x => exact taskEffect_clk_ge _ _ _ _ _ _ _
 
 /-! ## the statement-level reading of a history -/
 
 /-- the value an operation explicitly sets `completed` of task `id` to, if it does -/
 def setValue (id : Nat) : Op → Option Int
   | .update i u => if i = id then u.completed else none
-  | .reset i _ _ c _ => if i = id then some c else none
+  | .reset i r => if i = id then some r.completed else none
   | _ => none
 
 /-- the amount an operation advances task `id` by -/
@@ -81,9 +87,9 @@ theorem setValue_untouched {id : Nat} {op : Op} (h : op.target ≠ some id) :
     setValue id op = none ∧ advValue id op = 0 := by
   cases op <;> simp_all [Op.target, setValue, advValue]
 
-theorem taskEffect_completed (cfg : Cfg) (clock : Clock) (op : Op) (pre : Option Int) (t : Task) (k : Nat)
+theorem taskEffect_completed (cfg : Cfg) (clock : Clock) (op : Op) (pre : Option Int) (o : Nat) (t : Task) (k : Nat)
     (id : Nat) (h : op.target = some id) :
-    (taskEffect cfg clock op pre t k).1.completed =
+    (taskEffect cfg clock op pre o t k).1.completed =
       match setValue id op with
       | some v => v
       | none => t.completed + advValue id op := by
@@ -96,9 +102,12 @@ theorem taskEffect_completed (cfg : Cfg) (clock : Clock) (op : Op) (pre : Option
     simp only [Op.target, Option.some.injEq] at h; subst h
     simp only [taskEffect, Task.updateBody, finishCheck_completed, applyUpd_completed, setValue, advValue, if_true]
     cases u.completed <;> simp
-  | reset i s tot c v =>
+  | reset i r =>
     simp only [Op.target, Option.some.injEq] at h; subst h
     simp [taskEffect, Task.resetBody, setValue]
+  | refresh => simp [Op.target] at h
+  | start => simp [Op.target] at h
+  | stop => simp [Op.target] at h
   | advance i a =>
     simp only [Op.target, Option.some.injEq] at h; subst h
     simp [taskEffect, Task.advanceBody, setValue, advValue]
@@ -123,7 +132,8 @@ theorem completed_exact_aux (cfg : Cfg) (clock : Clock) (ops : List Op) :
     rcases step_lookup cfg clock op st hwf id t h with ⟨_, hn⟩ | ⟨htg, _, hl, _⟩ | ⟨htg, hl⟩
     · have := run_lookup_none cfg clock ops _ hs.1 id (Nat.lt_of_lt_of_le hid hs.2) hn
       rw [this] at h'; cases h'
-    · have hcomp := taskEffect_completed cfg clock op (preRead cfg clock op st).1 t
+    · have hcomp := taskEffect_completed cfg clock op (preRead cfg clock op st).1
+        (visCount (st.tasks.filter (fun x => x.id != id))) t
         (preRead cfg clock op st).2.clk id htg
       cases hsv : setValue id op with
       | none =>
@@ -161,9 +171,9 @@ def clearsFinish (id : Nat) : Op → Bool
   | .update i u => i == id && u.total.isSome
   | _ => false
 
-theorem taskEffect_keeps_finish (cfg : Cfg) (clock : Clock) (op : Op) (pre : Option Int) (t : Task) (k : Nat)
+theorem taskEffect_keeps_finish (cfg : Cfg) (clock : Clock) (op : Op) (pre : Option Int) (o : Nat) (t : Task) (k : Nat)
     (id : Nat) (v : Int) (htg : op.target = some id) (hc : clearsFinish id op = false)
-    (hf : t.finishedTime = some v) : (taskEffect cfg clock op pre t k).1.finishedTime = some v := by
+    (hf : t.finishedTime = some v) : (taskEffect cfg clock op pre o t k).1.finishedTime = some v := by
   cases op with
   | addTask => simp [Op.target] at htg
   | removeTask i => simpa [taskEffect] using hf
@@ -176,9 +186,12 @@ theorem taskEffect_keeps_finish (cfg : Cfg) (clock : Clock) (op : Op) (pre : Opt
     apply finishCheck_keeps
     simp only [applyUpd_finishedTime, hc]
     simpa using hf
-  | reset i s tot c vis =>
+  | reset i r =>
     simp only [Op.target, Option.some.injEq] at htg; subst htg
     simp [clearsFinish] at hc
+  | refresh => simp [Op.target] at htg
+  | start => simp [Op.target] at htg
+  | stop => simp [Op.target] at htg
   | advance i a =>
     simp only [taskEffect, Task.advanceBody]
     apply finishCheck_keeps
@@ -201,7 +214,7 @@ theorem finish_time_stable_aux (cfg : Cfg) (clock : Clock) (ops : List Op) :
     · have := run_lookup_none cfg clock ops _ hs.1 id (Nat.lt_of_lt_of_le hid hs.2) hn
       rw [this] at h'; cases h'
     · exact ih _ hs.1 id _ v hl
-        (taskEffect_keeps_finish cfg clock op _ t _ id v htg (hno op List.mem_cons_self) hf) hno' t' h'
+        (taskEffect_keeps_finish cfg clock op _ _ t _ id v htg (hno op List.mem_cons_self) hf) hno' t' h'
     · exact ih _ hs.1 id t v hl hf hno' t' h'
 
 end RichModel.Progress
